@@ -32,6 +32,11 @@ pub struct LBlock {
     pub returns_empty: bool,
 }
 
+/// half of the script-less blocks carry `line-count="<0" severity="warning"` (always violated, never failing the run)
+fn plain_warns(b: &LBlock) -> bool {
+    b.plain && b.lines.len() % 2 == 0
+}
+
 /// owner[i] = the block whose script (and content lines) block i uses
 fn owners(c: &LuaCase) -> Vec<usize> {
     let mut o: Vec<usize> = (0..c.blocks.len()).collect();
@@ -126,6 +131,11 @@ fn lay_out(c: &LuaCase) -> Vec<Laid> {
                 }
                 tag.push_str(&format!(" {k}={}", quote_attr(v)));
                 attrs.insert(k.clone(), v.clone());
+            }
+            if plain_warns(b) {
+                // a block without a script whose own rule reports a WARNING: the report is then never empty, and a
+                // failing script elsewhere must still fail the run
+                tag.push_str(" line-count=\"<0\" severity=\"warning\"");
             }
             if !b.plain {
                 tag.push_str(&format!(" check-lua=\"scripts/s{}.lua\"", own[i]));
@@ -270,6 +280,18 @@ pub fn check(c: &LuaCase, probe: &Probe) -> Verdict {
         }
     }
     want.sort();
+    // warnings of the script-less blocks: exactly one `line-count` warning per such block, nothing else
+    let mut want_warn: Vec<(String, u64)> = laid.iter().flat_map(|l| l.blocks.iter().filter(|(i, ..)| plain_warns(&c.blocks[*i])).map(|(_, tag_line, ..)| (l.path.clone(), *tag_line as u64))).collect();
+    want_warn.sort();
+    let mut got_warn: Vec<(String, u64)> = diags.iter().filter(|d| d.code == "line-count" && d.severity == 2).map(|d| (d.file.clone(), d.sl)).collect();
+    got_warn.sort();
+    if got_warn != want_warn {
+        return Verdict::Fail(show(&format!("warnings of the script-less blocks differ: expected {want_warn:?}, observed {got_warn:?}"), &out));
+    }
+    if !want_warn.is_empty() {
+        probe.class("with-warnings-from-another-rule");
+    }
+    let diags: Vec<_> = diags.into_iter().filter(|d| !(d.code == "line-count" && d.severity == 2)).collect();
     let mut got: Vec<(String, u64, String)> = diags.iter().map(|d| (d.file.clone(), d.sl, d.data_json().get("lua_error").and_then(|v| v.as_str()).unwrap_or("<none>").to_string())).collect();
     got.sort();
     if diags.iter().any(|d| d.code != "check-lua") || got != want {
@@ -321,7 +343,7 @@ pub fn case_strategy() -> BoxedStrategy<LuaCase> {
         .boxed();
     (
         prop_oneof![3 => proptest::collection::vec(block.clone(), 1..8), 1 => proptest::collection::vec(block, 8..41)],
-        prop_oneof![1 => Just(vec![]), 1 => proptest::collection::vec((any::<u8>(), 0u8..7), 1..4)],
+        prop_oneof![1 => Just(vec![]), 1 => proptest::collection::vec((any::<u8>(), 0u8..8), 1..4)],
         0u8..4,
         proptest::bool::weighted(0.3),
         any::<bool>(),
@@ -332,7 +354,7 @@ pub fn case_strategy() -> BoxedStrategy<LuaCase> {
 }
 
 pub fn run(run: &mut Run) {
-    run.rule = "random: 1..40 check-lua blocks over up to 5 files (root and nested directories, one with a space; py/sh/toml/yaml), each with its own generated script, except that 25% reuse the script and the content lines of the nearest earlier scripted block (same or other file; only position and tag differ) (20% of the blocks carry no check-lua at all and sit between scripted ones), arbitrary content lines (printable ASCII incl. quotes and backslashes, Unicode, empty and whitespace-only first/last lines), 0..2 extra attributes, optional check-lua-pattern from the key-pattern family; scripts return a framed payload serialising ctx.file, ctx.line, the sorted ctx.attrs and content (a third of them assemble it through a producer coroutine of their own that also holds the busy loop), or nil, or (10%) the empty string — still one diagnostic —, after a busy loop of 0..300000 iterations; in half of the cases 1..3 blocks get a failing script (syntax error, error(), error with a table, no validate, number / false / true / table result) at any index; TOKIO_WORKER_THREADS in {1,2,4,16}, pinned to one core in 30%, `safe` mode with an appended call log in 50%, scan or new-file diff mode. Non-trivial = >= 3 blocks and (a failing script, or busy loops of different lengths).".into();
+    run.rule = "random: 1..40 check-lua blocks over up to 5 files (root and nested directories, one with a space; py/sh/toml/yaml), each with its own generated script, except that 25% reuse the script and the content lines of the nearest earlier scripted block (same or other file; only position and tag differ) (20% of the blocks carry no check-lua at all and sit between scripted ones; half of those carry an always-violated `line-count` rule of severity warning, so that the report is not empty when a script fails elsewhere), arbitrary content lines (printable ASCII incl. quotes and backslashes, Unicode, empty and whitespace-only first/last lines), 0..2 extra attributes, optional check-lua-pattern from the key-pattern family; scripts return a framed payload serialising ctx.file, ctx.line, the sorted ctx.attrs and content (a third of them assemble it through a producer coroutine of their own that also holds the busy loop), or nil, or (10%) the empty string — still one diagnostic —, after a busy loop of 0..300000 iterations; in half of the cases 1..3 blocks get a failing script (syntax error, error(), error with a table, no validate, number / false / true / table result) at any index; TOKIO_WORKER_THREADS in {1,2,4,16}, pinned to one core in 30%, `safe` mode with an appended call log in 50%, scan or new-file diff mode. Non-trivial = >= 3 blocks and (a failing script, or busy loops of different lengths).".into();
     run.assumptions = vec!["the Tokio schedule is perturbed (worker count, affinity, busy loops), not owned: an interleaving-specific loss could be missed".into()];
     run.shrink_iters = 120;
     run.random("lua", run.tier.pick(500, 12000), case_strategy, check);
